@@ -16,6 +16,7 @@
  *   B<status...>                   one digit per of_build_repair_symbol
  *   Q<status>                      set_fec_parameters on the decoder session
  *   S<status><complete>:<source mask>:<repair mask or ->   after each submission call
+ *   PM<i,i,...>                    order in which of_finish_decoding will inject the repair symbols (codecs 3, 5)
  *   F<status><complete>:<source mask>:<repair mask or ->   after of_finish_decoding
  *   E<one letter per source>       '.' not available; R = the application's own received buffer,
  *                                  C = a buffer returned by the callback, L = library allocated;
@@ -169,6 +170,17 @@ int main(void)
 				print_masks(dec, codec, k, n);
 			}
 			if (finish) {
+				if (codec == 3 || codec == 5) {
+					/* the ML path shuffles the repair symbols with rand(): reseed, replay its loop to report the
+					 * injection order (token PM), reseed again so that the library draws the same sequence */
+					static UINT32 pm[MAXN]; UINT32 t;
+					srand(12345u + (unsigned)k * 7u + (unsigned)r);
+					for (t = 0; t < (UINT32)r; t++) pm[t] = t;
+					for (t = 0; t < (UINT32)r; t++) { INT32 backup = pm[t]; INT32 rv = rand() % r; pm[t] = pm[rv]; pm[rv] = backup; }
+					fprintf(out, " PM");
+					for (t = 0; t < (UINT32)r; t++) fprintf(out, t ? ",%u" : "%u", pm[t]);
+					srand(12345u + (unsigned)k * 7u + (unsigned)r);
+				}
 				st = of_finish_decoding(dec);
 				fprintf(out, " F%d%d", st, of_is_decoding_complete(dec) ? 1 : 0);
 				print_masks(dec, codec, k, n);
